@@ -1,7 +1,81 @@
-import VermouthModel.Proto
-open Proto
+import VermouthModel.C15
+open Proto C15
 
-/-- placeholder driver for C15: replaced when the model is written -/
-def handle (_ : Unit) (_ : List Tok) : Unit × String := ((), "bad-op")
+/-
+request:  run <atoms> <edges> <params>
+  atom   = [ key name|- chain|- resid|- resname|- icode|- oldresid|- pos ]   pos = - (missing) | [ ] (nan) | [ x y z ]
+  edge   = [ u v ]
+  params = [ names sep upper2 [ bn bd ] [ mn md ] [ [ d2 kn kd ] ... ] dom ]   dom = [ 0 ] | [ 1 ] | [ 2 [ [ a b ] ... ] ]
+response: error [ keys ] | none | nanwarn | bonds [ [ a b len5 kn kd ] ... ]
+-/
+
+def posOf (t : Tok) : Option Pos :=
+  match t with
+  | Tok.none => some Pos.missing
+  | Tok.list [] => some Pos.nan
+  | Tok.list [x, y, z] => do pure (Pos.at (← x.int?) (← y.int?) (← z.int?))
+  | _ => none
+
+def atomOf (t : Tok) : Option Atom := do
+  match ← t.list? with
+  | [k, nm, ch, ri, rn, ic, old, ps] =>
+      pure { key := ← k.int?, name := ← nm.optStr?,
+             res := { chain := ← ch.optStr?, resid := ← ri.optInt?, resname := ← rn.optStr?, icode := ← ic.optStr? },
+             oldResid := ← old.optInt?, pos := ← posOf ps }
+  | _ => none
+
+def pairOf (t : Tok) : Option (Int × Int) := do
+  match ← t.list? with
+  | [a, b] => pure (← a.int?, ← b.int?)
+  | _ => none
+
+def ratOf (t : Tok) : Option Rat := do
+  match ← t.list? with
+  | [n, d] =>
+      let dn ← d.nat?
+      if dn = 0 then none else pure (mkRat (← n.int?) dn)
+  | _ => none
+
+def ktabOf (t : Tok) : Option (Nat × Rat) := do
+  match ← t.list? with
+  | [d2, n, d] =>
+      let dn ← d.nat?
+      if dn = 0 then none else pure (← d2.nat?, mkRat (← n.int?) dn)
+  | _ => none
+
+def domOf (t : Tok) : Option Domain := do
+  match ← t.list? with
+  | [Tok.int 0] => pure Domain.always
+  | [Tok.int 1] => pure Domain.chain
+  | [Tok.int 2, rs] => pure (Domain.regions (← (← rs.list?).mapM pairOf))
+  | _ => none
+
+def paramsOf (t : Tok) : Option Params := do
+  match ← t.list? with
+  | [names, sep, up2, base, minf, ktab, dom] =>
+      pure { names := ← strs? names, sep := ← sep.nat?, upper2 := ← up2.nat?, base := ← ratOf base,
+             minForce := ← ratOf minf, kTab := ← (← ktab.list?).mapM ktabOf, dom := ← domOf dom }
+  | _ => none
+
+def encBond (b : Bond) : String :=
+  encList [encInt b.a, encInt b.b, encNat b.len5, encInt b.k.num, encNat b.k.den]
+
+def encOutcome : Outcome → String
+  | .error ks => "error " ++ encList (ks.map encInt)
+  | .nothing => "none"
+  | .nanWarning => "nanwarn"
+  | .bonds bs => "bonds " ++ encList (bs.map encBond)
+
+def handle (_ : Unit) (toks : List Tok) : Unit × String :=
+  let r : Option String :=
+    match toks with
+    | [Tok.str "run", atoms, edges, params] => do
+        let as ← (← atoms.list?).mapM atomOf
+        let es ← (← edges.list?).mapM pairOf
+        let p ← paramsOf params
+        pure (encOutcome (run as es p))
+    | [Tok.str "len5", d2] => do pure (encNat (len5Of (← d2.nat?)))
+    | _ => none
+  ((), r.getD "bad-op")
 
 def main : IO Unit := runDriver handle ()
